@@ -20,7 +20,7 @@ FUNCTIONS = ["DataFrameToFlodymDataConverter._check_data_complete", "DataFrameTo
 ASSUMPTIONS = ["no cell value truncates to a numeric item of a dimension (value/item confusion is explored by C11)", "cell values pairwise different for frames with more than 4 cells", "file parsing is outside: pd.read_csv / pd.read_excel are replaced by a stub returning the prepared frame (the readers' flag forwarding and the call into from_df are inside)",
                "no cell value truncates to a numeric item of a dimension for frames with more than 4 cells"]
 OUTSIDE = ["CSV / Excel text parsing", "more than two simultaneous faults", "frames with more than 6 rows"]
-VARIANTS = 'labels stored as text in an integer dimension; row labels as pd.concat leaves them; falsy unknown labels; readers through CompoundDataReader.read_parameters; an ignored row without a value; a 1-d array over items 0..n-1; infinite present entries (float64 run)'
+VARIANTS = 'a second non-dimension column holding text; an unknown item in a one-item dimension column headed by neither name nor letter; labels stored as text in an integer dimension; row labels as pd.concat leaves them; falsy unknown labels; readers through CompoundDataReader.read_parameters; an ignored row without a value; a 1-d array over items 0..n-1; infinite present entries (float64 run)'
 BOUNDS = {"quick": dict(dimsets=["r2", "a3i0", "T2_r2", "r2_p3u", "s1_r2_p2"], layouts="long (columns / index) and wide", faults="every single fault at every position; every pair on frames <= 4 rows",
                         flags="all four combinations"),
           "thorough": dict(dimsets=["r2", "a3i0", "t2i", "T2_r2", "r2_p3u", "s1_r2_p2", "T2_r2_p2"], layouts="as quick", faults="every single fault and every pair at every position (frames <= 8 rows)", flags="all four combinations")}
@@ -64,6 +64,11 @@ def _single_faults(name, layout):
     for k, s in enumerate(spec):
         out.append(("drop_dim_column", k))
     out.append(("extra_value_column",))
+    out.append(("extra_text_column",))  # a second non-dimension column holding text (a unit, a source): two value columns that match no dimension
+    if any(len(s[2]) == 1 and s[3] is str for s in spec):
+        # a one-item text dimension in a column headed by neither its name nor its letter, one row carrying an unknown item:
+        # the column is no dimension column then, and two non-dimension columns remain
+        out += [("unnamed_single_item_column_unknown", 0), ("unnamed_single_item_column_unknown", n - 1)]
     return out
 
 
@@ -147,6 +152,7 @@ def _build(cfg, w):
     for idx in np.ndindex(*dims.shape):
         rows.append([tuple(s[2][i] for s, i in zip(spec, idx)), X[idx]])
     removed_dims, extra_value_col, removed_item_cols = [], False, []
+    extra_text_col, unnamed_col = False, None
     layout = cfg["layout"]
     faults = [tuple(f) for f in cfg["faults"]]
     if layout != "wide":
@@ -181,6 +187,14 @@ def _build(cfg, w):
                 removed_dims.append(f[1])
             elif f[0] == "extra_value_column":
                 extra_value_col = True
+            elif f[0] == "extra_text_column":
+                extra_text_col = True
+            elif f[0] == "unnamed_single_item_column_unknown":
+                k1 = [k for k, sp in enumerate(spec) if len(sp[2]) == 1 and sp[3] is str][0]
+                lab = list(base[f[1]][0])
+                lab[k1] = "zz_unknown"
+                base[f[1]] = [tuple(lab), base[f[1]][1]]
+                unnamed_col = k1
         final = [r for i, r in enumerate(base) if i not in drops] + adds
         data = {s[1]: [r[0][k] for r in final] for k, s in enumerate(spec)}
         data["value"] = [r[1] for r in final]
@@ -200,6 +214,16 @@ def _build(cfg, w):
                 df = df.set_index(keep)
         if layout == "long_cols_letters":
             df = df.rename(columns={s[1]: s[0] for s in spec})
+        if extra_text_col:
+            df["unit"] = ["t/yr"] * len(df)
+        if unnamed_col is not None and (unnamed_col in removed_dims or not any(r[0][unnamed_col] == "zz_unknown" for r in final)):
+            unnamed_col = None  # the relabelled row or the whole column was removed by the other fault: nothing is left of this one
+        if unnamed_col is not None:
+            nm = spec[unnamed_col][1]
+            if layout == "long_index":
+                df = df.rename_axis(index=lambda k_: "case" if k_ == nm else k_) if nm in (df.index.names or []) else df
+            else:
+                df = df.rename(columns={nm: "case", spec[unnamed_col][0]: "case"})
         model_rows = final
     else:
         last = spec[-1]
@@ -266,7 +290,7 @@ def _build(cfg, w):
     must_raise_always = False
     if any(len(spec[k][2]) > 1 for k in removed_dims):
         must_raise_always = True
-    if extra_value_col:
+    if extra_value_col or extra_text_col or unnamed_col is not None:
         must_raise_always = True
     if layout == "wide" and removed_item_cols and len(last[2]) - len(removed_item_cols) < 1:
         must_raise_always = True
